@@ -10,8 +10,9 @@
    honoured when it points to a smaller index, so every walk towards the root terminates.
 
    Quirk of the code kept on purpose (see Properties_C09.v):
-     Q4  an any-ancestor step takes the nearest ancestor that satisfies it and never backtracks, and
-         FROM_ROOT followed by an any-ancestor step just walks up to the root (K14, K15).
+     Q4  an any-ancestor step takes the nearest ancestor that satisfies it and never backtracks (K15).
+         (FROM_ROOT directly after an any-ancestor step re-tests that step on the top-level ancestor,
+         which is complete for '/a//b...'; K14 repaired.)
    Repaired in /repo and modelled as repaired (commits f650494, cb2fe18, 335a1a5): a child-axis step
    never accepts the document node; an attribute step only accepts attribute nodes; the forward re-run
    of an attribute step tests attributes by attribute name. *)
@@ -226,6 +227,15 @@ Definition step_ok (D : doc) (attr : bool) (t : ntest) (ps : list predi) (c : na
    else negb (is_attr (kind_of D c)) && negb (is_root (kind_of D c)) && child_test t (kind_of D c))
   && do_preds (found_index D attr t ps c) ps c true.
 
+(* FROM_ROOT after an any-ancestor step: the first ancestor-or-self whose parent is a root node *)
+Definition below_root (D : doc) (a : nat) : bool :=
+  match parent D a with Some p => is_root (kind_of D p) | None => false end.
+Definition root_retry (D : doc) (c : nat) (F : nat -> bool) : option nat * bool :=
+  match find (below_root D) (aos D c) with
+  | Some e => if F e then (parent D e, true) else (Some c, false)
+  | None => (Some c, false)
+  end.
+
 Definition body (D : doc) (st : mstep) (rest : list mstep) (c : nat) : option nat * bool :=
   match st with
   | MAnyFn => (Some c, negb (match rest with [] => true | _ => false end))   (* score = scoreHolder *)
@@ -238,12 +248,13 @@ Definition body (D : doc) (st : mstep) (rest : list mstep) (c : nat) : option na
       else (Some c, fs c)
   | MRoot =>
       if is_root (kind_of D c) then (Some c, true)
-      else if head_is_any rest                         (* Q4: walk up until the root test succeeds *)
-           then match find (fun a => is_root (kind_of D a)) (aos D c) with
-                | Some a => (Some a, true)
-                | None => (None, false)
-                end
-           else (Some c, false)
+      else match rest with                             (* the any-ancestor step took the nearest candidate; *)
+           | MAny t ps :: _ =>                         (* the only one that can be a child of the root is the *)
+               root_retry D c (fun e =>                (* top-level ancestor: re-test the step on it *)
+                 child_test t (kind_of D e) && do_preds (found_index D false t ps e) ps e true)
+           | MAnyWP :: _ => root_retry D c (fun _ => true)
+           | _ => (Some c, false)
+           end
   | MAnyWP =>                                          (* node() on the context itself: always the first hit *)
       if is_attr (kind_of D c) then (Some c, false) else (Some c, true)
   | MAttr t ps => (Some c, step_ok D true t ps c)
@@ -299,6 +310,7 @@ Definition no_left_of_any (p : path) : bool :=
   match p_head p, p_steps p with
   | HRel, _ :: r => desc_then_child r                  (* the first separator of a relative path is not written *)
   | HRel, [] => true
+  | HAbs, (SChild, _) :: r => desc_then_child r        (* '/a//b': FROM_ROOT re-tests the top-level ancestor *)
   | _, l => desc_then_child l
   end.
 
